@@ -93,6 +93,7 @@ type FuncContract struct {
 	Pure       bool             // assume func: result is a function of args only (deterministic)
 	Asserts    []AnchoredAssert
 	Dispatch   bool // method: its contract describes pure interface calls on boxed receivers (calls.go dispatchLink)
+	MayPanic   string // non-empty: explicit panic statements of this function are allowed outcomes (reason); ensures hold on normal return only
 }
 
 type AnchoredAssert struct {
@@ -164,7 +165,7 @@ type ContractFile struct {
 var directiveKW = map[string]bool{
 	"func": true, "assume": true, "spec": true, "ghost": true, "lemma": true, "pure": true,
 	"global": true, "model": true, "requires": true, "ensures": true, "assigns": true,
-	"loop": true, "inline": true, "dispatch": true, "abstract": true, "results": true, "trusted": true, "reads": true,
+	"loop": true, "inline": true, "dispatch": true, "abstract": true, "results": true, "trusted": true, "maypanic": true, "reads": true,
 	"induction": true, "let": true, "axiom": true, "deterministic": true, "trigger": true,
 	"assert": true, "use": true, "by": true, "fuel": true, "snapshot": true, "check": true, "witness": true,
 }
@@ -470,6 +471,12 @@ func parseContractFile(path, pkg string) (*ContractFile, error) {
 				if cur != nil {
 					cur.Trusted = d.text
 				}
+			case "maypanic":
+				if cur == nil || strings.TrimSpace(d.text) == "" {
+					perr = fail(d, "maypanic needs a func and a reason")
+					return
+				}
+				cur.MayPanic = strings.TrimSpace(d.text)
 			case "assert":
 				if cur == nil {
 					perr = fail(d, "assert outside func")
